@@ -8,6 +8,7 @@
 import PsutilModel.Base.Proto
 import PsutilModel.Model.C19Gen
 import PsutilModel.Spec.C19Cores
+import PsutilModel.Spec.C19Dir
 open Lean Psutil Psutil.Proto Psutil.C19
 
 def asFS (j : Json) : R FileState :=
@@ -39,9 +40,28 @@ def listD (f : Json → R α) (j : Json) (k : String) : R (List α) :=
   | .ok v => asList f v
   | .error _ => .ok []
 
+/-- a directory listing: `[[name, state], …]`, existing files only (`false` = unreadable) -/
+def asDir (j : Json) : R Dir :=
+  asList (fun e => do
+    match e.getArr? with
+    | .ok #[n, f] =>
+      let name ← asBytes n
+      match ← asFS f with
+      | .absent => .error "a listed file cannot be absent"
+      | .unreadable => pure (name, none)
+      | .content b => pure (name, some b)
+    | _ => .error "directory entry must be [name, state]") j
+
+/-- a chip: abstract (`temps` / `fans` lists), or at file-name level (`files`: the listing of the
+    hwmon directory; the sensor / fan bases are derived from the names as the code derives them) -/
 def asChip (j : Json) : R Chip := do
-  pure { nested := ← boolD j "nested", name := ← fsF j "name", temps := ← listD asSensor j "temps"
-         fans := ← listD asFan j "fans" }
+  match j.getObjVal? "files" with
+  | .ok fs =>
+    let d ← asDir fs
+    pure (chipOfDir (← boolD j "nested") d (sensorBases bNameTemp d).eraseDups (sensorBases bFan d).eraseDups)
+  | .error _ =>
+    pure { nested := ← boolD j "nested", name := ← fsF j "name", temps := ← listD asSensor j "temps"
+           fans := ← listD asFan j "fans" }
 
 def asTrip (j : Json) : R Trip := do
   pure { typ := ← fsF j "typ", temp := ← fsF j "temp", hyst := ← boolD j "hyst" }
@@ -49,9 +69,31 @@ def asTrip (j : Json) : R Trip := do
 def asZone (j : Json) : R Zone := do
   pure { temp := ← fsF j "temp", typ := ← fsF j "typ", trips := ← listD asTrip j "trips" }
 
-def asTempTree (j : Json) : R TempTree := do
+/-- a zone: abstract (`trips` in iteration order), or at file-name level: `files` = the listing of the
+    zone directory, `order` = the iteration order of the Python set of derived trip-point names (must be
+    one: no repetition, exactly the derived names). Model zone = `zoneOfDir`; specification zone =
+    the kernel's description `Spec.kernelZone` (`none` = foreign `trip_point*` names: silent). -/
+def asZoneIn (j : Json) : R (Zone × Option Zone) := do
+  match j.getObjVal? "files" with
+  | .ok fs =>
+    let d ← asDir fs
+    let order ← listD asBytes j "order"
+    if !isSetOrder order (tripNames d) then
+      .error "`order` is not an iteration order of the set of derived trip-point names"
+    else pure (zoneOfDir d order, if Spec.KernelNamed d then some (Spec.kernelZone d) else none)
+  | .error _ =>
+    let z ← asZone j
+    pure (z, some z)
+
+/-- (tree the model runs on, tree the specification speaks about; `none` = silent) -/
+def asTempTree (j : Json) : R (TempTree × Option TempTree) := do
   let n ← match j.getObjVal? "coretemp" with | .ok v => asNat v | .error _ => pure 0
-  pure { chips := ← listD asChip j "chips", coretempFiles := n, zones := ← listD asZone j "zones" }
+  let chips ← listD asChip j "chips"
+  let zs ← listD asZoneIn j "zones"
+  let specZones : Option (List Zone) := zs.foldr (fun z acc => match z.2, acc with
+    | some s, some l => some (s :: l) | _, _ => none) (some [])
+  pure ({ chips := chips, coretempFiles := n, zones := zs.map (·.1) },
+        specZones.map fun l => { chips := chips, coretempFiles := n, zones := l })
 
 def asSupply (j : Json) : R Supply := do
   pure { name := ← bytesF j "name", energyNow := ← fsF j "energy_now", chargeNow := ← fsF j "charge_now"
@@ -160,12 +202,14 @@ def answer (m s : Json) : Json := jObj [("model", m), ("spec", s)]
 def handle (_ : Unit) (j : Json) : R (Unit × Json) := do
   let op ← strF j "op"
   if op == "temps" then
-    let t ← asTempTree j
+    let (t, ts) ← asTempTree j
     let fh ← boolD j "fahrenheit"
     let m := jObj [("plat", jRes (jList jTempRaw) (sensorsTemperatures cfg t)),
                    ("front", jRes (jList jTempOut) (sensorsTemperaturesFront cfg fh t))]
-    let s := jObj [("plat", okv (jList jRow (Spec.temperatures t))),
-                   ("front", okv (jList jRow (Spec.temperaturesFront fh t)))]
+    let s := match ts with
+      | some t' => jObj [("plat", okv (jList jRow (Spec.temperatures t'))),
+                         ("front", okv (jList jRow (Spec.temperaturesFront fh t')))]
+      | none => jObj [("plat", Json.null), ("front", Json.null)]
     return ((), answer m s)
   if op == "fans" then
     let chips ← listD asChip j "chips"
